@@ -560,8 +560,12 @@ def r16_6(ctx: Ctx):
                 if t == f"notisinstance({cur},FunctionProblem)" and rets and all(isinstance(r.value, ast.Name) and r.value.id == cur for r in rets) and (cur == gp or (len(entry) == 1 and isinstance(entry[0], ast.Name) and entry[0].id == gp)):
                     st_u = OK
         mentions_inner = any(isinstance(x, ast.Attribute) and x.attr == "_inner" for x in ast.walk(g.node))
-        if st_u != OK and (not mentions_inner or any(len(c.args) == 1 and isinstance(c.args[0], ast.Attribute) and c.args[0].attr != "_inner" for c in rec)):
+        gp0 = g.params()[0] if g.params() else None
+        dispatches = any(isinstance(c, ast.Call) and isinstance(c.func, ast.Attribute) and isinstance(c.func.value, ast.Name) and c.func.value.id == gp0 for c in body_walk(g.node)) or any(isinstance(c, ast.Call) and isinstance(c.func, ast.Attribute) and c.func.attr.startswith("_") and c.func.attr != "_inner" for c in body_walk(g.node))
+        if st_u != OK and any(len(c.args) == 1 and isinstance(c.args[0], ast.Attribute) and c.args[0].attr != "_inner" for c in rec):
             st_u = VIOLATION
+        elif st_u != OK and not mentions_inner and not dispatches:
+            st_u = VIOLATION  # neither `_inner` nor a method of the problem that could step down: nothing is unwrapped
     obs.append(ctx.ob("R16.6", g, g.node, status=st_u, detail="unwrapping follows _inner down to the FunctionProblem" if st_u == OK else "get_function_problem does not step through `_inner`" if st_u == VIOLATION else "cannot follow how get_function_problem unwraps the layers", construct="unwrap"))
     return obs
 
